@@ -55,6 +55,7 @@ class AsyncView:
         self.results: Dict[str, Result] = {}  # key: "node.push_step", "conn.push_zip", "node._stop._stopping", ...
         self.cls_of: Dict[str, str] = {}
         self.fi_of: Dict[str, object] = {}
+        self.missing: Set[str] = set()
         for cls, key in ((NODE, "node"), (CONN, "conn")):
             ci = model.cls(cls)
             for name in ci.methods:
@@ -73,7 +74,15 @@ class AsyncView:
             subm = [e for e in r.events if e.kind == "call" and e.name == "self._submit" and e.args and e.args[0][0] == "closure" and e.func == fi.qualname]
             c = subm[0].args[0] if len(subm) == 1 else r.env.get(clo)
             if c is None or c[0] != "closure":
-                raise AnalysisError(f"task closure ({clo}) not found in {cls}.{parent}")
+                # the lifecycle function no longer hands a task to the executor: analysed as an empty task; the typestate and
+                # flip-submit rules report it (C05), the other properties have nothing to say about a task that does not exist
+                sub = Result(ev, r.frame)
+                sub.events = []
+                self.results[f"{key}.{parent}.{clo}"] = sub
+                self.cls_of[f"{key}.{parent}.{clo}"] = key
+                self.fi_of[f"{key}.{parent}.{clo}"] = fi
+                self.missing.add(f"{key}.{parent}.{clo}")
+                continue
             cq = ev.closures[c[1]].qualname if c[1] in ev.closures else None
             if cq and cq in model.functions:
                 self.fi_of[f"{key}.{parent}.{clo}"] = model.functions[cq]
@@ -567,6 +576,28 @@ def state_set(cond: T.Term, extra: Optional[Dict[T.Term, T.Term]] = None) -> Opt
     return out
 
 
+def rule_gates(chk: Check, view: AsyncView, rid: str):
+    """_submit accepts a task in exactly the reference states (a gate that is too narrow silently drops tasks that were submitted
+    while the receiver was being started: what is recorded then depends on the race between the threads)."""
+    for key, ref in REF_GATES.items():
+        r = view.results[key]
+        sub = [e for e in r.events if e.kind == "call" and e.name == "self._executor.submit"]
+        if len(sub) != 1:
+            chk.unknown(rid, f"gate:{key}", f"expected one executor.submit in {key}, found {len(sub)}", chk.loc(view.fi(key)))
+            continue
+        g = sub[0].guard
+        got = state_set(g, {S("stopping"): T.FALSE})
+        chk.add(rid, f"gate:{key}", got == ref, f"{key} accepts tasks in states {sorted(got) if got is not None else '?'}, expected exactly {sorted(ref)}",
+                chk.loc(view.fi(key), sub[0].node))
+        got2 = state_set(g, {S("stopping"): T.TRUE})
+        chk.add(rid, f"gate-stopping:{key}", got2 == set(ASYNC_STATES), f"with stopping=True {key} must accept in every state", chk.loc(view.fi(key), sub[0].node))
+        chk.add(rid, f"gate-lock:{key}", "self._lock" in sub[0].ctx, f"the gate test and executor.submit in {key} are not inside `with self._lock`", chk.loc(view.fi(key), sub[0].node))
+        # a rejected task yields a cancelled future (callers never block on it)
+        canc = [e for e in r.events if e.kind == "call" and e.name.endswith(".cancel")]
+        chk.add(rid, f"gate-reject:{key}", len(canc) == 1 and flow.equivalent(canc[0].guard, T.mk_not(g)), f"a rejected task in {key} must return a cancelled Future",
+                chk.loc(view.fi(key)))
+
+
 def rule_typestate(chk: Check, view: AsyncView, rid: str):
     chk.rule(rid, "typestate (A10): every assignment to _state happens under a guard that restricts the predecessor state to the "
                   "reference automaton; _submit gates accept exactly the running states (or stopping=True); the STOPPING flip and the "
@@ -599,24 +630,7 @@ def rule_typestate(chk: Check, view: AsyncView, rid: str):
         if key not in seen:
             chk.violation(rid, f"transition-missing:{key}", f"{key} no longer sets _state (reference transition -> {REF_AUTOMATON[key][1]})",
                           chk.loc(view.fi(key)))
-    # gates
-    for key, ref in REF_GATES.items():
-        r = view.results[key]
-        sub = [e for e in r.events if e.kind == "call" and e.name == "self._executor.submit"]
-        if len(sub) != 1:
-            chk.unknown(rid, f"gate:{key}", f"expected one executor.submit in {key}, found {len(sub)}", chk.loc(view.fi(key)))
-            continue
-        g = sub[0].guard
-        got = state_set(g, {S("stopping"): T.FALSE})
-        chk.add(rid, f"gate:{key}", got == ref, f"{key} accepts tasks in states {sorted(got) if got is not None else '?'}, expected exactly {sorted(ref)}",
-                chk.loc(view.fi(key), sub[0].node))
-        got2 = state_set(g, {S("stopping"): T.TRUE})
-        chk.add(rid, f"gate-stopping:{key}", got2 == set(ASYNC_STATES), f"with stopping=True {key} must accept in every state", chk.loc(view.fi(key), sub[0].node))
-        chk.add(rid, f"gate-lock:{key}", "self._lock" in sub[0].ctx, f"the gate test and executor.submit in {key} are not inside `with self._lock`", chk.loc(view.fi(key), sub[0].node))
-        # a rejected task yields a cancelled future (callers never block on it)
-        canc = [e for e in r.events if e.kind == "call" and e.name.endswith(".cancel")]
-        chk.add(rid, f"gate-reject:{key}", len(canc) == 1 and flow.equivalent(canc[0].guard, T.mk_not(g)), f"a rejected task in {key} must return a cancelled Future",
-                chk.loc(view.fi(key)))
+    rule_gates(chk, view, rid)
     # flip + submit under one lock
     for key, clo, flag in (("node._stop", "_stopping", True), ("conn.stop", "_stopping", True), ("node._startup", "_starting", False)):
         r = view.results[key]
@@ -664,6 +678,31 @@ def _mutated_attrs(view: AsyncView, keys: Sequence[str]) -> Dict[str, List[Tuple
             elif e.kind == "call" and e.name.startswith("self._") and e.name.split(".")[-1] in ("append", "extend", "pop", "clear", "increment"):
                 out.setdefault(e.name.split(".")[1], []).append((key, e))
     return out
+
+
+def rule_task_private_state(chk: Check, view: AsyncView, rid: str):
+    """Values travel between task functions only through the event queues: a scalar attribute that one task function mutates is
+    neither read nor written by any other task function (how often the writer has run by the time another task looks is decided
+    by the thread schedule)."""
+    n = 0
+    for cls, tasks in (("node", [f"node.{t}" for t in NODE_TASKS]), ("conn", [f"conn.{t}" for t in CONN_TASKS])):
+        mut = _mutated_attrs(view, tasks)
+        owners = {a: {k for k, _ in sites} for a, sites in mut.items() if not a.startswith("q_")}
+        for a, ks in sorted(owners.items()):
+            n += 1
+            chk.add(rid, f"single-writer:{cls}.{a}", len(ks) == 1, f"self.{a} is mutated by several task functions: {sorted(ks)}", chk.loc(view.fi(sorted(ks)[0])))
+        for k in tasks:
+            r = view.results[k]
+            for e in r.events:
+                for t in [e.term, e.guard] + list(e.args or ()) + [x for _, x in (e.kwargs or ())]:
+                    if t is None:
+                        continue
+                    for x in T.walk(t):
+                        if x[0] == "sym" and x[1].startswith("self.") and x[1].split(".")[1] in owners and k not in owners[x[1].split(".")[1]]:
+                            a = x[1].split(".")[1]
+                            chk.violation(rid, f"cross-task-read:{k}:{a}", f"{k} reads self.{a}, which is advanced by {sorted(owners[a])}: its value at this point depends on how "
+                                          "far the other task has run; values must be handed over through the event queues", chk.loc(view.fi(k), e.node))
+    chk.floor(rid, "task-private scalar attributes", n, 8)
 
 
 def rule_reset_complete(chk: Check, view: AsyncView, rid: str):
